@@ -1217,7 +1217,10 @@ class MultipartWriter(Payload):
             if self._is_form_data:
                 # https://datatracker.ietf.org/doc/html/rfc7578#section-4.2
                 assert CONTENT_DISPOSITION in part.headers
-                assert "name=" in part.headers[CONTENT_DISPOSITION]
+                assert (
+                    "name=" in part.headers[CONTENT_DISPOSITION]
+                    or "name*=" in part.headers[CONTENT_DISPOSITION]
+                )
 
             await writer.write(b"--" + self._boundary + b"\r\n")
             await writer.write(part._binary_headers)
